@@ -97,7 +97,7 @@ def step (s0 : DS) (line : String) : DS × String :=
   | _ => Driver.BStor.step hooks s0 line
 
 def cfgOfArgs (kv : List (String × String)) : Cfg :=
-  { r := ⟨boolArg kv "shortHeaderIsEOF", boolArg kv "tornDataIsEOF", false⟩,
+  { r := ⟨boolArg kv "shortHeaderIsEOF", boolArg kv "tornDataIsEOF", false, boolArg kv "zeroTailIsEOF"⟩,
     syncFsyncs := boolArg kv "syncFsyncs", closeFsyncs := boolArg kv "closeFsyncs",
     truncatesTornTail := boolArg kv "truncatesTornTail",
     loadCleansTemp := true, rmTempLocked := true, rmTempFromIndex := true, rmTempCompactor := true }
